@@ -25,7 +25,10 @@ EXTENDS Naturals, Sequences, FiniteSets
 
 \* "OUT": the relative path (several segments) of an existing item in a directory NEXT TO the
 \* data root - what "../OUT" names if the root is not clamped
-Seg == {"N1", "N2", "F", ".", "..", "", "ABS", "OUT"}
+\* "DIR": an existing directory inside the root that is not a collection (the principal);
+\* "SIB": the name of a file that exists in the directory the root itself lies in (the
+\* deployment keeps its data directory inside another git working tree)
+Seg == {"N1", "N2", "F", ".", "..", "", "ABS", "OUT", "DIR", "SIB"}
 
 RECURSIVE NormAcc(_, _)
 NormAcc(s, acc) ==
